@@ -1,4 +1,5 @@
 import CgtModel.Report
+import CgtModel.Lemmas.WellFormed
 import CgtModel.Lemmas.Cost
 import CgtModel.Lemmas.Offsets
 import CgtModel.Props.C02
@@ -71,6 +72,14 @@ theorem C03_run_conserves (w : Int) (l : List Tx) (rs : List TickerResult) (h : 
       ∃ f : Day → Rat, legCost r.legs + poolC' r.pool
         = totalDayCost (C02.setOffsets f (daysOf r.ticker (preprocess l))) :=
   fun r hr hok hnz => C03_main_pass_conserves r.ticker w _ r.pool r.legs hok hnz (C02.run_result w l rs h r hr)
+
+/-- **C03 main pass from the raw ledger**: validator-clean and accepted ⇒ for every security the legs'
+    allowable cost plus the cost left in the pool equals the purchases' cost plus the pre-pass offsets -/
+theorem C03_ledger (w : Int) (l : List Tx) (hwf : WellFormed l) (rs : List TickerResult)
+    (h : run w l = .ok rs) :
+    ∀ r ∈ rs, ∃ f : Day → Rat, legCost r.legs + poolC' r.pool
+        = totalDayCost (C02.setOffsets f (daysOf r.ticker (preprocess l))) :=
+  fun r hr => C03_run_conserves w l rs h r hr (wellFormed_days l hwf r.ticker).1 (wellFormed_days l hwf r.ticker).2
 
 /-- an event that finds shares held moves the total of the offsets by exactly its signed amount -/
 theorem C03_event_moves_offsets_exactly (adj : Rat) (lots : List Lot) (hnn : ∀ l ∈ lots, 0 ≤ l.held)
